@@ -61,10 +61,11 @@ example : validateNN (some [.nan, .pinf, .ninf, .fin 0, .fin (-1)]) false = valu
 
 /-! ### scalar validators: accepted ⇒ postcondition, and refusal tables -/
 
-/-- `validate_positive_float`: an accepted value is a float that is positive and not NaN
-    (or `None` when optional). -/
-theorem positive_float_post {v r : PyVal} {o : Bool} (h : validatePositiveFloat v o = ok r) :
-    (r = .none ∧ v = .none ∧ o = true) ∨ ∃ x, r = .float x ∧ x.pos = true ∧ x.isNan = false := by
+/-- `validate_positive_float`: an accepted value is a float that is positive and not NaN — and finite
+    unless `allow_inf=True` was asked for (or it is `None` when optional). -/
+theorem positive_float_post {v r : PyVal} {o ai : Bool} (h : validatePositiveFloat v o ai = ok r) :
+    (r = .none ∧ v = .none ∧ o = true) ∨
+      ∃ x, r = .float x ∧ x.pos = true ∧ x.isNan = false ∧ (ai = false → x.finPos = true) := by
   unfold validatePositiveFloat at h
   split at h
   · left; simp_all
@@ -74,34 +75,56 @@ theorem positive_float_post {v r : PyVal} {o : Bool} (h : validatePositiveFloat 
     · simp [h1] at hx
     · by_cases h2 : x.isNan = true
       · simp [h1, h2] at hx
-      · simp only [h1, h2, if_false, Bool.false_eq_true] at hx
-        injection hx with hx
-        exact ⟨x, hx.symm, pos_of_not_le0 (by simpa using h1) (by simpa using h2), by simpa using h2⟩
+      · by_cases h3 : (x.isInf && !ai) = true
+        · simp [h1, h2, h3] at hx
+        · simp only [h1, h2, h3, if_false, Bool.false_eq_true] at hx
+          injection hx with hx
+          refine ⟨x, hx.symm, pos_of_not_le0 (by simpa using h1) (by simpa using h2), by simpa using h2, ?_⟩
+          intro hai
+          subst hai
+          cases x <;> simp_all [XF.isInf, XF.finPos, XF.le0, XF.isNan]
+
+/-- Full strength: an accepted jitter / length scale / ls_factor / learning rate (`allow_inf=False`, the
+    default) is a FINITE positive number. -/
+theorem positive_float_finite {v : PyVal} {x : XF} {o : Bool}
+    (h : validatePositiveFloat v o false = ok (.float x)) : x.finPos = true := by
+  rcases positive_float_post h with ⟨h1, _, _⟩ | ⟨y, hy, _, _, hf⟩
+  · cases h1
+  · injection hy with hy; subst hy; exact hf rfl
 
 /-- Refusal table of `validate_positive_float` (jitter, ls, ls_factor, init_learn_rate, ls_time …):
-    None when required, NaN, non-positive numbers, non-numeric strings, containers, arrays that are
-    not 0-d, arbitrary objects — all ValueError. -/
-theorem positive_float_refusals (o : Bool) :
-    validatePositiveFloat .none false = valueError ∧
-    (∀ x : XF, x.isNan = true → validatePositiveFloat (.float x) o = valueError) ∧
-    (∀ x : XF, x.le0 = true → validatePositiveFloat (.float x) o = valueError) ∧
-    validatePositiveFloat (.bool false) o = valueError ∧
-    (∀ i : Int, i ≤ 0 → i.natAbs ≤ 2 ^ 63 → validatePositiveFloat (.int i) o = valueError) ∧
-    (∀ s, validatePositiveFloat (.str s none) o = valueError) ∧
-    (∀ s x, (x.le0 = true ∨ x.isNan = true) → validatePositiveFloat (.str s (some x)) o = valueError) ∧
-    (∀ xs, validatePositiveFloat (.list xs) o = valueError) ∧
-    validatePositiveFloat .obj o = valueError ∧
+    None when required, NaN, non-positive numbers, `+inf` (unless allowed), ints beyond the double range,
+    non-numeric strings, containers, arrays that are not 0-d, arbitrary objects — all ValueError. -/
+theorem positive_float_refusals (o ai : Bool) :
+    validatePositiveFloat .none false ai = valueError ∧
+    (∀ x : XF, x.isNan = true → validatePositiveFloat (.float x) o ai = valueError) ∧
+    (∀ x : XF, x.le0 = true → validatePositiveFloat (.float x) o ai = valueError) ∧
+    validatePositiveFloat (.float .pinf) o false = valueError ∧
+    validatePositiveFloat (.float .pinf) o true = ok (.float .pinf) ∧
+    validatePositiveFloat (.bool false) o ai = valueError ∧
+    (∀ i : Int, i ≤ 0 → validatePositiveFloat (.int i) o ai = valueError) ∧
+    (∀ i : Int, floatOverflowBound.toNat ≤ i.natAbs → validatePositiveFloat (.int i) o ai = valueError) ∧
+    (∀ s, validatePositiveFloat (.str s none) o ai = valueError) ∧
+    (∀ s x, (x.le0 = true ∨ x.isNan = true) → validatePositiveFloat (.str s (some x)) o ai = valueError) ∧
+    (∀ xs, validatePositiveFloat (.list xs) o ai = valueError) ∧
+    validatePositiveFloat .obj o ai = valueError ∧
     (∀ lib shape data, ¬(shape = [] ∧ data.length = 1) →
-        validatePositiveFloat (.arr lib shape data) o = valueError) := by
-  refine ⟨rfl, ?_, ?_, ?_, ?_, ?_, ?_, ?_, ?_, ?_⟩
+        validatePositiveFloat (.arr lib shape data) o ai = valueError) := by
+  refine ⟨rfl, ?_, ?_, ?_, ?_, ?_, ?_, ?_, ?_, ?_, ?_, ?_, ?_⟩
   · intro x hx; cases o <;> cases x <;> simp_all [validatePositiveFloat, floatCatch, Outcome.bind, pyFloat, XF.isNan, XF.le0]
   · intro x hx; cases o <;> simp [validatePositiveFloat, floatCatch, Outcome.bind, pyFloat, hx]
   · cases o <;> rfl
-  · intro i hi hb
+  · cases o <;> rfl
+  · cases o <;> rfl
+  · intro i hi
     rcases intToFloat_cases i with h | ⟨q, hq, _, hneg⟩
-    · exact absurd h (intToFloat_int64 hb)
+    · cases o <;> simp [validatePositiveFloat, floatCatch, Outcome.bind, pyFloat, h]
     · have : (XF.fin q).le0 = true := by simp [XF.le0, hneg hi]
       cases o <;> simp [validatePositiveFloat, floatCatch, Outcome.bind, pyFloat, hq, this]
+  · intro i hi
+    have : intToFloat i = internal := by
+      unfold intToFloat; rw [if_neg (by omega)]
+    cases o <;> simp [validatePositiveFloat, floatCatch, Outcome.bind, pyFloat, this]
   · intro s; cases o <;> rfl
   · intro s x hx
     cases o <;> rcases hx with hx | hx <;> simp [validatePositiveFloat, floatCatch, Outcome.bind, pyFloat, hx]
@@ -113,21 +136,19 @@ theorem positive_float_refusals (o : Bool) :
       split <;> simp_all
     cases o <;> simp [validatePositiveFloat, floatCatch, Outcome.bind, this]
 
-
-/-- Full-strength reading "an accepted jitter / length scale is a finite positive number":
-      `validatePositiveFloat v o = ok (.float x) → x.finPos = true`
-    is FALSE for the code as it is: `+inf` passes (`inf <= 0` and `isnan(inf)` are both false).
-    It holds outside that one value: -/
-theorem positive_float_finite_partial {v : PyVal} {x : XF} {o : Bool}
-    (h : validatePositiveFloat v o = ok (.float x)) (hx : x ≠ .pinf) : x.finPos = true := by
-  rcases positive_float_post h with ⟨h1, _, _⟩ | ⟨y, hy, hp, _⟩
-  · cases h1
-  · injection hy with hy; subst hy
-    cases x <;> simp_all [XF.pos, XF.finPos]
-
-theorem positive_float_finite_counterexample :
-    validatePositiveFloat (.float .pinf) false = ok (.float .pinf) ∧ XF.pinf.finPos = false :=
-  ⟨rfl, rfl⟩
+/-- Every float that is not a finite positive number (NaN, ±inf, zero, negative) is refused when a finite
+    positive float is required. -/
+theorem positive_float_refuses_nonfinite (x : XF) (o : Bool) (h : x.finPos = false) :
+    validatePositiveFloat (.float x) o false = valueError := by
+  cases x with
+  | fin q =>
+    have : (XF.fin q).le0 = true := by
+      simp only [XF.finPos, decide_eq_false_iff_not, not_lt] at h
+      simp [XF.le0, h]
+    exact (positive_float_refusals o false).2.2.1 _ this
+  | pinf => exact (positive_float_refusals o false).2.2.2.1
+  | ninf => exact (positive_float_refusals o false).2.2.1 _ rfl
+  | nan => exact (positive_float_refusals o false).2.1 _ rfl
 
 /-- `validate_float_or_int` (rank): accepted ⇒ `None` (optional) or a bool/int returned as is or a
     float that is not NaN. -/
@@ -329,11 +350,11 @@ theorem foin_refusals (o p : Bool) :
   refine ⟨by cases p <;> rfl, ?_, by cases o <;> rfl, ?_, ?_⟩
   · intro s n; cases o <;> rfl
   · intro x hx
-    cases o <;> simp [validateFloatOrIterable, PyVal.isFloatOrInt, pyFloat, Outcome.bind, hx]
+    cases o <;> simp [validateFloatOrIterable, PyVal.isFloatOrInt, pyFloat, catchOverflow, Outcome.bind, hx]
   · intro lib shape data hx
     have : data.any XF.lt0 = true := List.any_eq_true.mpr hx
     cases o <;> simp [validateFloatOrIterable, PyVal.isFloatOrInt, PyVal.isIterable, toArr, PyVal.hasNone, toArrCore,
-      Outcome.bind, this]
+      catchOverflow, Outcome.bind, this]
 
 /-- `validate_array`: accepted ⇒ `None` (optional) or a jax array whose number of dimensions is one of
     the requested ones. -/
@@ -372,7 +393,7 @@ theorem array_refusals (o : Bool) (nd : Option (List Nat)) :
     (∀ lib shape data ds, shape.length ∉ ds → validateArray (.arr lib shape data) o (some ds) = valueError) := by
   refine ⟨rfl, fun _ => rfl, fun _ => rfl, fun _ => rfl, rfl, ?_⟩
   intro lib shape data ds hds
-  simp [validateArray, PyVal.isIterable, toArr, PyVal.hasNone, toArrCore, Outcome.bind, hds]
+  simp [validateArray, PyVal.isIterable, toArr, PyVal.hasNone, toArrCore, catchOverflow, Outcome.bind, hds]
 
 /-- `validate_1d`: an accepted value is a 1-D jax array (a scalar becomes a one-element array). -/
 theorem validate1d_post {v r : PyVal} (h : validate1d v = ok r) : ∃ n data, r = .arr .jax [n] data := by
@@ -517,40 +538,39 @@ example : ∃ r d : ℝ, 0 < r ∧ 0 < d := ⟨1, 2, by norm_num, by norm_num⟩
 
 /-! ### no internal errors (clean failure) -/
 
-/-- Full-strength reading "a validator either returns a value or raises ValueError/TypeError":
-      `∀ v o, (validateX v o).isInternal = false`
-    is FALSE for the code as it is (Python ints beyond int64 / beyond the double range raise
-    OverflowError).  It holds when every int inside the value is in the int64 range: -/
-theorem validators_no_internal_partial {v : PyVal} (h : v.intsInInt64 = true) (o p : Bool)
-    (choices : List String) (nd : Option (List Nat)) :
-    (validateFloatOrInt v o).isInternal = false ∧ (validatePositiveFloat v o).isInternal = false ∧
+/-- **Full strength**: whatever the value — including Python ints outside int64 or beyond the double
+    range, at any nesting depth — every validator either returns a value or raises ValueError / TypeError;
+    no other exception class escapes. -/
+theorem validators_no_internal (v : PyVal) (o p ai : Bool) (choices : List String) (nd : Option (List Nat)) :
+    (validateFloatOrInt v o).isInternal = false ∧ (validatePositiveFloat v o ai).isInternal = false ∧
     (validateFloat v o).isInternal = false ∧ (validatePositiveInt v o).isInternal = false ∧
     (validateBool v o).isInternal = false ∧ (validateString v choices).isInternal = false ∧
     (validateFloatOrIterable v o p).isInternal = false ∧ (validateArray v o nd).isInternal = false ∧
     (validate1d v).isInternal = false := by
-  have hpf := pyFloat_noInternal h
   refine ⟨?_, ?_, ?_, ?_, ?_, ?_, ?_, ?_, ?_⟩
   · unfold validateFloatOrInt
     split
     · rfl
     · split
-      · rename_i hfi; exact nanCheck_noInternal hfi h
-      · exact floatCheck_noInternal h
+      · rename_i hfi; exact nanCheck_noInternal hfi
+      · exact floatCheck_noInternal v
   · unfold validatePositiveFloat
     split
     · rfl
-    · refine bind_isInternal (by rw [floatCatch_isInternal]; exact hpf) ?_
+    · refine bind_isInternal (floatCatch_noInternal v) ?_
       intro x _
       split
       · rfl
-      · split <;> rfl
+      · split
+        · rfl
+        · split <;> rfl
   · unfold validateFloat
     split
     · split <;> rfl
     · simp only
       split
-      · rename_i hfi; exact nanCheck_noInternal hfi (squeezeJax1_ints h)
-      · exact floatCheck_noInternal (squeezeJax1_ints h)
+      · rename_i hfi; exact nanCheck_noInternal hfi
+      · exact floatCheck_noInternal _
   · unfold validatePositiveInt
     split <;> first | rfl | (split <;> rfl)
   · unfold validateBool
@@ -563,12 +583,12 @@ theorem validators_no_internal_partial {v : PyVal} (h : v.intsInInt64 = true) (o
     split
     · rfl
     · split
-      · refine bind_isInternal hpf ?_
+      · refine bind_isInternal (catchOverflow_noInternal _) ?_
         intro x _; split <;> rfl
       · split
         · rfl
         · split
-          · refine bind_isInternal (toArr_noInternal h) ?_
+          · refine bind_isInternal (catchOverflow_noInternal _) ?_
             intro a _; split <;> rfl
           · rfl
   · unfold validateArray
@@ -579,25 +599,39 @@ theorem validators_no_internal_partial {v : PyVal} (h : v.intsInInt64 = true) (o
       · split
         · rfl
         · split
-          · exact toArr_noInternal h
+          · exact catchOverflow_noInternal _
           · rfl
       · intro a _
         split
         · rfl
         · split <;> rfl
   · unfold validate1d
-    refine bind_isInternal (toArr_noInternal h) ?_
+    refine bind_isInternal (catchOverflow_noInternal _) ?_
     intro a _
     split <;> rfl
 
-theorem validators_no_internal_counterexample :
-    (validateFloatOrInt (.int (2 ^ 63)) false).isInternal = true ∧
-    (validateFloat (.int (2 ^ 63)) false).isInternal = true ∧
-    (validateFloatOrInt (.int (-(2 ^ 63) - 1)) true).isInternal = true ∧
-    (validatePositiveFloat (.int (2 ^ 1024)) false).isInternal = true ∧
-    (validateFloatOrIterable (.int (2 ^ 1024)) true true).isInternal = true ∧
-    (validateArray (.list [.int (2 ^ 1024)]) false none).isInternal = true := by
-  refine ⟨by decide +kernel, by decide +kernel, by decide +kernel, by decide +kernel, by decide +kernel, by decide +kernel⟩
+/-- The former counter-example witnesses (ints outside int64 / beyond the double range raised
+    OverflowError before the repair) are now refused with ValueError. -/
+theorem big_ints_refused :
+    (validateFloatOrInt (.int (2 ^ 63)) false).isValueError = true ∧
+    (validateFloat (.int (2 ^ 63)) false).isValueError = true ∧
+    (validateFloatOrInt (.int (-(2 ^ 63) - 1)) true).isValueError = true ∧
+    (validatePositiveFloat (.int (2 ^ 1024)) false false).isValueError = true ∧
+    (validateFloatOrIterable (.int (2 ^ 1024)) true true).isValueError = true ∧
+    (validateArray (.list [.int (2 ^ 1024)]) false none).isValueError = true ∧
+    (validate1d (.int (-(2 ^ 1024)))).isValueError = true := by
+  refine ⟨by decide +kernel, by decide +kernel, by decide +kernel, by decide +kernel, by decide +kernel,
+    by decide +kernel, by decide +kernel⟩
+
+/-- ints outside the int64 range are refused by `validate_float_or_int` / `validate_float` (rank, mu, …). -/
+theorem int64_overflow_refused (i : Int) (h : ¬ (-(2 ^ 63 : Int) ≤ i ∧ i < (2 ^ 63 : Int))) (o : Bool) :
+    validateFloatOrInt (.int i) o = valueError ∧ validateFloat (.int i) o = valueError := by
+  have h1 : isnanScalar (.int i) = valueError := by
+    show (if -(2 ^ 63 : Int) ≤ i ∧ i < (2 ^ 63 : Int) then (ok false : Outcome Bool) else valueError) = valueError
+    rw [if_neg h]
+  constructor
+  · cases o <;> simp [validateFloatOrInt, PyVal.isFloatOrInt, h1, Outcome.bind]
+  · simp [validateFloat, squeezeJax1, PyVal.isFloatOrInt, h1, Outcome.bind]
 
 /-! ### option strings and the constructor -/
 
@@ -623,23 +657,28 @@ theorem gp_from_string_post {v r : PyVal} (h : gpFromString v = ok r) :
       · cases h
   · cases h
 
-/-- Full-strength reading "a wrongly typed gp_type is refused with TypeError or ValueError" is FALSE for
-    the code as it is: anything that is not None, an enum member or a str reaches `s.lower()` and
-    raises AttributeError.  Outside that region `from_string` fails cleanly: -/
-theorem gp_from_string_no_internal_partial {v : PyVal}
-    (h : v = .none ∨ (∃ t, v = .enum t) ∨ ∃ s n, v = .str s n) : (gpFromString v).isInternal = false := by
-  rcases h with rfl | ⟨t, rfl⟩ | ⟨s, n, rfl⟩
-  · rfl
-  · rfl
-  · unfold gpFromString
+/-- **Full strength**: `from_string` never fails with anything but ValueError … -/
+theorem gp_from_string_no_internal (v : PyVal) : (gpFromString v).isInternal = false := by
+  cases v with
+  | str s n =>
+    unfold gpFromString
     simp only
     split
     · rfl
     · split <;> rfl
+  | _ => rfl
 
-theorem gp_from_string_counterexample :
-    (gpFromString (.int 3)).isInternal = true ∧ (gpFromString (.bool true)).isInternal = true :=
-  ⟨rfl, rfl⟩
+/-- … and a gp_type that is neither None, nor a member, nor a str (`gp_type=3`, `True`, a list, …: the
+    former AttributeError) is refused with ValueError. -/
+theorem gp_from_string_refusals (v : PyVal) (h1 : v ≠ .none) (h2 : ∀ t, v ≠ .enum t) (h3 : ∀ s n, v ≠ .str s n) :
+    gpFromString v = valueError := by
+  cases v with
+  | none => exact absurd rfl h1
+  | enum t => exact absurd rfl (h2 t)
+  | str s n => exact absurd rfl (h3 s n)
+  | _ => rfl
+
+example : gpFromString (.int 3) = valueError ∧ gpFromString (.bool true) = valueError := ⟨rfl, rfl⟩
 
 example : gpFromString (.str "Full Nystroem" none) = ok (.enum "full_nystroem") := by rfl
 example : gpFromString (.str "sparse" none) = ok (.enum "sparse_cholesky") := by rfl
@@ -720,15 +759,15 @@ theorem ctorNN_post {v r : PyVal} (h : ctorNN v = ok r) :
   · cases h
 
 /-- What an accepted constructor call guarantees about the stored attributes: jitter, ls_factor,
-    init_learn_rate (and ls when given) are positive non-NaN floats; rank and mu carry no NaN; the flags
+    init_learn_rate (and ls when given) are FINITE positive floats; rank and mu carry no NaN; the flags
     are genuine bools; optimizer and d_method are known option strings; gp_type is None or a
     GaussianProcessType; n_landmarks / n_iter are non-negative ints; stored nn_distances are all finite and
     positive; `d` has no negative entry. -/
 theorem ctor_post {a c : CtorArgs} (h : densityCtor a = ok c) :
-    (∃ x, c.jitter = .float x ∧ x.pos = true ∧ x.isNan = false) ∧
-    (∃ x, c.lsFactor = .float x ∧ x.pos = true ∧ x.isNan = false) ∧
-    (∃ x, c.initLearnRate = .float x ∧ x.pos = true ∧ x.isNan = false) ∧
-    (c.ls = .none ∨ ∃ x, c.ls = .float x ∧ x.pos = true ∧ x.isNan = false) ∧
+    (∃ x, c.jitter = .float x ∧ x.finPos = true) ∧
+    (∃ x, c.lsFactor = .float x ∧ x.finPos = true) ∧
+    (∃ x, c.initLearnRate = .float x ∧ x.finPos = true) ∧
+    (c.ls = .none ∨ ∃ x, c.ls = .float x ∧ x.finPos = true) ∧
     (c.rank = .none ∨ cleanNumber c.rank) ∧ (c.mu = .none ∨ cleanNumber c.mu) ∧
     (∃ b, c.predictorWithUncertainty = .bool b) ∧ (∃ b, c.jit = .bool b) ∧
     (c.checkRank = .none ∨ ∃ b, c.checkRank = .bool b) ∧
@@ -738,18 +777,18 @@ theorem ctor_post {a c : CtorArgs} (h : densityCtor a = ok c) :
     (c.nnDistances = .none ∨ ∃ lib shape data, c.nnDistances = .arr lib shape data ∧ ∀ x ∈ data, x.finPos = true) := by
   obtain ⟨_, h2, h3, _, h5, h6, h7, h8, h9, _, _, _, _, h14, _, h16, h17, h18, h19, h20⟩ := ctor_ok h
   refine ⟨?_, ?_, ?_, ?_, ?_, ?_, ?_, ?_, ?_, ?_, ?_, ?_, ?_⟩
-  · rcases positive_float_post h3 with ⟨_, _, ho⟩ | hx
+  · rcases positive_float_post h3 with ⟨_, _, ho⟩ | ⟨x, hr, _, _, hf⟩
     · cases ho
-    · exact hx
-  · rcases positive_float_post h9 with ⟨_, _, ho⟩ | hx
+    · exact ⟨x, hr, hf rfl⟩
+  · rcases positive_float_post h9 with ⟨_, _, ho⟩ | ⟨x, hr, _, _, hf⟩
     · cases ho
-    · exact hx
-  · rcases positive_float_post h16 with ⟨_, _, ho⟩ | hx
+    · exact ⟨x, hr, hf rfl⟩
+  · rcases positive_float_post h16 with ⟨_, _, ho⟩ | ⟨x, hr, _, _, hf⟩
     · cases ho
-    · exact hx
-  · rcases positive_float_post h8 with ⟨hr, _, _⟩ | hx
+    · exact ⟨x, hr, hf rfl⟩
+  · rcases positive_float_post h8 with ⟨hr, _, _⟩ | ⟨x, hr, _, _, hf⟩
     · exact Or.inl hr
-    · exact Or.inr hx
+    · exact Or.inr ⟨x, hr, hf rfl⟩
   · rcases float_or_int_post h2 with ⟨hr, _, _⟩ | hx
     · exact Or.inl hr
     · exact Or.inr hx
@@ -787,17 +826,19 @@ theorem ctor_post {a c : CtorArgs} (h : densityCtor a = ok c) :
     · exact Or.inr hx
 
 /-- Construction-time refusals: an unknown optimizer or d_method string, a non-string option, a flag that
-    is not a bool, a jitter / ls / ls_factor / init_learn_rate that is NaN or not positive, a NaN rank or mu,
-    an unknown gp_type name, or nn_distances without a single valid entry — none of them constructs. -/
+    is not a bool, a jitter / ls / ls_factor / init_learn_rate that is not a finite positive number (NaN, ±inf,
+    zero, negative), a NaN rank or mu, a gp_type that is no str / member / None, or nn_distances without a single valid entry — none of them constructs. -/
 theorem ctor_refuses (a : CtorArgs) :
     ((∀ s n, a.optimizer = .str s n → s ∉ optimizerChoices) → (densityCtor a).isOk = false) ∧
     ((∀ s n, a.dMethod = .str s n → s ∉ dMethodChoices) → (densityCtor a).isOk = false) ∧
     ((∀ b, a.jit ≠ .bool b) → (densityCtor a).isOk = false) ∧
     ((∀ b, a.predictorWithUncertainty ≠ .bool b) → (densityCtor a).isOk = false) ∧
     ((∀ b, a.checkRank ≠ .bool b) → a.checkRank ≠ .none → (densityCtor a).isOk = false) ∧
-    ((∀ x, a.jitter = .float x → x.pos = false ∨ x.isNan = true) → (∃ x, a.jitter = .float x) →
-        (densityCtor a).isOk = false) ∧
-    ((∃ x, a.ls = .float x ∧ (x.pos = false ∨ x.isNan = true)) → (densityCtor a).isOk = false) ∧
+    ((∃ x, a.jitter = .float x ∧ x.finPos = false) → (densityCtor a).isOk = false) ∧
+    ((∃ x, a.ls = .float x ∧ x.finPos = false) → (densityCtor a).isOk = false) ∧
+    ((∃ x, a.lsFactor = .float x ∧ x.finPos = false) → (densityCtor a).isOk = false) ∧
+    ((∃ x, a.initLearnRate = .float x ∧ x.finPos = false) → (densityCtor a).isOk = false) ∧
+    ((∀ s n, a.gpType ≠ .str s n) → (∀ t, a.gpType ≠ .enum t) → a.gpType ≠ .none → (densityCtor a).isOk = false) ∧
     (a.rank = .float .nan → (densityCtor a).isOk = false) ∧
     (a.mu = .float .nan → (densityCtor a).isOk = false) ∧
     ((∃ lib shape data, a.nnDistances = .arr lib shape data ∧ ∀ x ∈ data, x.finPos = false) →
@@ -807,7 +848,7 @@ theorem ctor_refuses (a : CtorArgs) :
     cases hc : densityCtor a with
     | ok c => exact absurd (hP c hc) hn
     | _ => rfl
-  refine ⟨?_, ?_, ?_, ?_, ?_, ?_, ?_, ?_, ?_, ?_⟩
+  refine ⟨?_, ?_, ?_, ?_, ?_, ?_, ?_, ?_, ?_, ?_, ?_, ?_, ?_⟩
   · intro hs
     refine key (P := ∃ r, validateString a.optimizer optimizerChoices = ok r)
       (fun c hc => ⟨_, (ctor_ok hc).2.2.2.2.2.2.2.2.2.2.2.2.2.1⟩) ?_
@@ -845,28 +886,30 @@ theorem ctor_refuses (a : CtorArgs) :
     rcases (bool_post hr).2 with ⟨hv, _⟩ | ⟨b, hv⟩
     · exact hn hv
     · exact hb b hv
-  · intro hx ⟨x, hxa⟩
-    refine key (P := ∃ r, validatePositiveFloat a.jitter false = ok r)
+  · rintro ⟨x, hxa, hx⟩
+    refine key (P := ∃ r, validatePositiveFloat a.jitter false false = ok r)
       (fun c hc => ⟨_, (ctor_ok hc).2.2.1⟩) ?_
     rintro ⟨r, hr⟩
-    rw [hxa] at hr
-    rcases hx x hxa with hp | hn
-    · by_cases hn : x.isNan = true
-      · rw [(positive_float_refusals false).2.1 x hn] at hr; cases hr
-      · rw [(positive_float_refusals false).2.2.1 x (le0_of_not_pos hp (by simpa using hn))] at hr
-        cases hr
-    · rw [(positive_float_refusals false).2.1 x hn] at hr; cases hr
+    rw [hxa, positive_float_refuses_nonfinite x false hx] at hr; cases hr
   · rintro ⟨x, hxa, hx⟩
-    refine key (P := ∃ r, validatePositiveFloat a.ls true = ok r)
+    refine key (P := ∃ r, validatePositiveFloat a.ls true false = ok r)
       (fun c hc => ⟨_, (ctor_ok hc).2.2.2.2.2.2.2.1⟩) ?_
     rintro ⟨r, hr⟩
-    rw [hxa] at hr
-    rcases hx with hp | hn
-    · by_cases hn : x.isNan = true
-      · rw [(positive_float_refusals true).2.1 x hn] at hr; cases hr
-      · rw [(positive_float_refusals true).2.2.1 x (le0_of_not_pos hp (by simpa using hn))] at hr
-        cases hr
-    · rw [(positive_float_refusals true).2.1 x hn] at hr; cases hr
+    rw [hxa, positive_float_refuses_nonfinite x true hx] at hr; cases hr
+  · rintro ⟨x, hxa, hx⟩
+    refine key (P := ∃ r, validatePositiveFloat a.lsFactor false false = ok r)
+      (fun c hc => ⟨_, (ctor_ok hc).2.2.2.2.2.2.2.2.1⟩) ?_
+    rintro ⟨r, hr⟩
+    rw [hxa, positive_float_refuses_nonfinite x false hx] at hr; cases hr
+  · rintro ⟨x, hxa, hx⟩
+    refine key (P := ∃ r, validatePositiveFloat a.initLearnRate false false = ok r)
+      (fun c hc => ⟨_, (ctor_ok hc).2.2.2.2.2.2.2.2.2.2.2.2.2.2.2.1⟩) ?_
+    rintro ⟨r, hr⟩
+    rw [hxa, positive_float_refuses_nonfinite x false hx] at hr; cases hr
+  · intro h3 h2 h1
+    refine key (P := ∃ r, gpFromString a.gpType = ok r) (fun c hc => ⟨_, (ctor_ok hc).2.2.2.2.1⟩) ?_
+    rintro ⟨r, hr⟩
+    rw [gp_from_string_refusals a.gpType h1 h2 h3] at hr; cases hr
   · intro hr
     refine key (P := ∃ r, validateFloatOrInt a.rank true = ok r) (fun c hc => ⟨_, (ctor_ok hc).2.1⟩) ?_
     rintro ⟨r, h⟩
@@ -880,7 +923,7 @@ theorem ctor_refuses (a : CtorArgs) :
     rintro ⟨r, h⟩
     rw [hnn] at h
     have : validateNN (some data) true = valueError := (validateNN_refused_iff data true).mpr hbad
-    simp [ctorNN, validateArray, PyVal.isIterable, toArr, PyVal.hasNone, toArrCore, Outcome.bind, arrVal, this] at h
+    simp [ctorNN, validateArray, PyVal.isIterable, toArr, PyVal.hasNone, toArrCore, catchOverflow, Outcome.bind, arrVal, this] at h
 
 example : (densityCtor {}).isOk = true := by decide +kernel
 example : (densityCtor { optimizer := .str "sgd" none }).isOk = false := by decide +kernel
